@@ -5,15 +5,14 @@ from ..report import Report
 
 def run(tier, seed):
     rep = Report("C20", tier, seed, "other")
-    try:
-        from ..propbase import deductive
-        import contracts.guards as CG
-        deductive(rep, "C20", CG.FUNCS, "contracts.guards")
-    except ImportError:
-        pass
+    from ..propbase import deductive
+    import contracts.inline as CI
+    deductive(rep, "C20", CI.C20_FUNCS, "contracts.inline", select=lambda q, ob, rel: True)
+    deductive(rep, "C20", ["markdown_it.parser_block.ParserBlock.tokenize"], "contracts.block", select=lambda q, ob, rel: True)
     gen_universe(rep, "vf.oracles2:c20_cost", "vf.oracles2:gen_c20", tier, "MarkdownIt.render", "cost contract: calls(render(x)) <= 12*maxNesting*len(x) and cost(2L) <= 2.6*cost(L) (cost = python-level calls into markdown_it, sys.setprofile)",
                  ["commonmark", "js-default"], "38 pathological families at L, 2L, 4L; distinct = distinct (family, calls per character)", "pathological families", timeout_s=300)
-    rep.explanation = ("Bounded for the growth claim: 'work per character stays bounded as inputs grow' is an amortised resource bound over whole runs; no potential-function proof is attempted, it is decided "
+    rep.explanation = ("Mixed. Deductive: the guards - rule calls in ParserBlock.tokenize, ParserInline.tokenize and skipToken happen only under level < maxNesting (GUARD at the dispatch call sites); skipToken always advances, "
+                       "memoises every result (cache[pos] == new pos, also for failed skips) and returns from the cache without calling a rule; both tokenizers terminate (DEC). Bounded for the growth claim: 'work per character stays bounded as inputs grow' is an amortised resource bound over whole runs; no potential-function proof is attempted, it is decided "
                        "only by the bounded cost contract on the real render. Deductive part (when contracts.guards is present): the nesting guards (rule calls only under level < maxNesting; skipToken memo).")
     rep.trusted_base = STD_TRUST
     rep.assumptions = ["cost measured as python-level calls into markdown_it (deterministic)"]
